@@ -6,6 +6,8 @@ import DeepModel.Props.C16
 #print axioms C16.c16_render_plain
 #print axioms C16.c16_field_failure_local
 #print axioms C16.c16_budget_independent
+#print axioms C16.c16_results_isolated
+#print axioms C16.c16_message_delivered
 #print axioms C16.c16_labels
 #print axioms C16.c16_default_logger
 #print axioms C16.c16_snapshot_agrees
